@@ -65,12 +65,12 @@ CHECKS = {
             "correspondence checks bit ranges against code lengths measured on the real container and total cost against a "
             "reference Huffman, on bounded-exhaustive and random profiles in both build profiles.", "§6 C06"),
     "C07": ("Lean proof (dictionary well-formedness invariant over all merge generations, exact characterisation of refusal) + "
-            "differential correspondence incl. scarce-tag and >1024-string regimes",
+            "differential correspondence incl. scarce-tag, crowded and compacting (more insertions than the summary's capacity) regimes",
             "C07.generations: every region reachable by push/clear/merge from any sources satisfies WF; under WF a push either is "
             "refused exactly when the literal is ambiguous (refuses_ambiguous) or reads back exactly (roundtrip) and leaves earlier "
             "indices unchanged (frame); accepts_empty; heavy_hitters_one_byte_partial / all_pushed_tagged: dictionary hits cost one "
             "byte and, below the compaction threshold with enough free tags, every source string is a hit. The Misra-Gries "
-            "compaction bound itself is not proved (stated in DESIGN.md). Props/C07MG.lean: the invariant the crate's Misra-Gries compaction actually maintains (the classical total/(k+1) bound is refuted by a kernel-checked counterexample), its composition through new_from, and dominant_strings_tagged: a string with C of N non-empty pushes gets a one-byte code whenever 513*N < (F+1)*(513*C-2*N); the crowded regime of the generator is derived from it.", "§6 C07"),
+            "compaction bound itself is not proved (stated in DESIGN.md). Props/C07MG.lean: the invariant the crate's Misra-Gries compaction actually maintains (the classical total/(k+1) bound is refuted by a kernel-checked counterexample), its composition through new_from, and dominant_strings_tagged: a string with C of N non-empty pushes gets a one-byte code whenever K*N < (F+1)*(K*C-2*N), K = MG.cap/2+1; the crowded regime of the generator is derived from it. The summary's capacity MG.cap (the literal of Vec::with_capacity in MisraGries::default(), 1024 in the crate as verified, K = 513) is not fixed by the property: gen_facts re-extracts it from the source on every run (Generated/SourceFacts.lean mgCapacity), the model, every theorem (stated with MG.cap, MG.k = MG.cap/2, MG.k+1 and proved from the generic-capacity theorems) and the generator's sizes follow it; the one side condition 2 <= MG.cap is decided once (Proofs/MGCap.lean: MG.two_le_cap), from which run_length_lt_cap: the summary's vector never reallocates.", "§6 C07"),
     "C13": ("Lean proof (get agrees with into_owned[k]? for both representations, none beyond len) + exhaustive-position correspondence",
             "C13.readSlice_get / readColumns_get / stack_get: for well-formed items get k = owned[k]?, in particular a panic for every "
             "k >= len; len/is_empty/iter agree. Scripts probe every item of regions with adjacent items at every position 0..len+2 "
